@@ -113,9 +113,9 @@ def run_c02(ctx, C):
     codec_common(ctx, C, [GEN_ADV, GEN_SK], [], mcs=[MC_SK, mc_sk_knob("MacFirst"), mc_sk_knob("PeerKeys")], traces=("Trace_SK",))
 
 
-GEN_HIST = dict(module="Gen_Histories", name="histories", constants=dict(MaxOps=lambda ctx: 4 if ctx.thorough else 3),
-                stride_thorough=12, invariants=("Sound", "Emit"), trace=False)
-GEN_HIST_LONG = dict(module="Gen_Histories", name="histories_long", constants=dict(MaxOps=64), invariants=("Emit",), trace=False,
+GEN_HIST = dict(module="Gen_Histories", name="histories", constants=dict(MaxOps=lambda ctx: 4 if ctx.thorough else 3, Stride=lambda ctx: 12 if ctx.thorough else 1),
+                invariants=("Sound", "Emit"), trace=False, timeout=3000)
+GEN_HIST_LONG = dict(module="Gen_Histories", name="histories_long", constants=dict(MaxOps=64, Stride=1), invariants=("Emit",), trace=False,
                      simulate=lambda ctx: "num=%d" % (3000 if ctx.thorough else 150), workers=16)
 
 
